@@ -159,6 +159,17 @@ CLAIMED['C09'] = dict(
          'stated as undecided; two seeded parser mutants are accordingly not detected.',
     ref='DESIGN.md section 3, C09')
 
+CLAIMED['C07'] = dict(
+    technique='ordering and dominance rules on the statement CFG of the move primitive and of its decision',
+    text='Static: Documentable.reparent performs all effects of a move - old registry keys dropped before and new ones inserted after the '
+         'rename, entry deleted from the old parent under the old name and inserted in the new parent under the new name, alias '
+         'old_name -> new qualified name evaluated after the rename, parentMod updated (R07.1); the call to reparent is dominated by '
+         '`as_name in current __all__` and by `origin.all is None or origin_name not in origin.all`, nothing is exported from class/function '
+         'scopes, a moved name gets no import alias (R07.2); consumers of stored qualified names re-resolve through find_object / '
+         'resolveName (R07.3). Decides the move primitive and its guard, not reachability from every consumer in every analysis order.',
+    note='Effects are recognised syntactically (del d[k] and d.pop(k) are equivalent); schedules are a runtime matter.',
+    ref='DESIGN.md section 3, C07')
+
 NOT_APPLICABLE = {
     'C04': 'relation between expandName results and the interpreter import system over all projects: value computations, no clause visible in the shape of the code (DESIGN.md section 5)',
     'C06': 'quantifies over processing schedules; name resolution during the AST walk is order sensitive by design, no structural bound (DESIGN.md section 5); the one structural fact (post-processing after the drain loop) is checked under C05',
